@@ -227,7 +227,9 @@ package tlog
 //@ # Tile arithmetic is abstracted: these functions are pure, their bodies (64-bit shifts) are not verified here.
 //@ func tileForIndex
 //@   pure
-//@   trusted "tile coordinate arithmetic (shifts); abstracted as an uninterpreted pure function"
+//@   trusted "tile coordinate arithmetic (shifts); abstracted as an uninterpreted pure function; assumed of it: the byte range lies inside the tile's own width and is a power-of-two run of hashes"
+//@   ensures t.H == h
+//@   ensures 1 <= h && h <= 30 && index >= 0 ==> 0 <= start && start < end && end <= t.W * 32 && TLEN(end - start) && t.W >= 1
 //@   props C10
 //@ # tileParent: only the level bookkeeping is specified (the k'th parent is k levels up, in wrap-around int
 //@ # arithmetic, or the zero Tile); the coordinate arithmetic (shifts) stays abstract
@@ -262,6 +264,7 @@ package tlog
 //@   allocates
 //@   trusted "alignment arithmetic (lo&(k-1), shifts) not verified; summary: appends NT(lo,hi) indexes"
 //@   ensures len(result) == len(need) + NT(lo, hi) && NT(lo, hi) >= 0
+//@   ensures (forall k int {result[k]} :: len(need) <= k && k < len(result) ==> result[k] >= 0) && (forall k int {result[k]} :: 0 <= k && k < len(need) ==> result[k] == need[k])
 //@   ensures lo < hi ==> NT(lo, hi) >= 1
 //@   ensures lo >= hi ==> NT(lo, hi) == 0
 //@   props C10 C03
@@ -270,21 +273,41 @@ package tlog
 //@   requires lo < hi && len(hashes) >= NT(lo, hi)
 //@   ensures len(result1) == len(hashes) - NT(lo, hi) && NT(lo, hi) >= 1
 //@   props C03
+//@ # the hash a run of 32 * 2^k tile bytes stands for: the bytes themselves for one hash, otherwise the node hash of
+//@ # the two halves
+//@ spec func TLEN(n int) bool decreases n = n == 32 || (n > 32 && n % 2 == 0 && TLEN(n / 2))
+//@ lemma tlen_pow2(k int)
+//@   requires k >= 0
+//@   ensures TLEN(32 * pow2(k))
+//@   induction k
+//@   hint TLEN(32 * pow2(k - 1))
+//@   trigger TLEN(32 * pow2(k))
+//@   props C10
+//@ spec func THS(s string) Hash decreases len(s) =
+//@     if len(s) <= 32 then HASHV(s) else NodeHash(THS(s[:len(s)/2]), THS(s[len(s)/2:]))
+//@ spec macro THASH(d []byte) Hash = THS(string(d))
 //@ # the hash a tile's data yields for a storage index, and whether the tile covers that index
-//@ spec func HFT(t Tile, d []byte, idx int) Hash
-//@ spec func HFTOK(t Tile, d []byte, idx int) bool
-//@ spec func THASH(d []byte) Hash
+//@ spec macro HFTOK(t Tile, d []byte, idx int) bool =
+//@     1 <= t.H && t.H <= 30 && 0 <= t.L && t.L < 64 && 1 <= t.W && t.W <= pow2(t.H) && len(d) >= t.W * 32
+//@     && t.L == tileForIndex_r0(t.H, idx).L && t.N == tileForIndex_r0(t.H, idx).N && t.W >= tileForIndex_r0(t.H, idx).W
+//@ spec macro HFT(t Tile, d []byte, idx int) Hash = THS(string(d[tileForIndex_r1(t.H, idx):tileForIndex_r2(t.H, idx)]))
 //@ func HashFromTile
-//@   trusted "abstracted by HFT/HFTOK (functions of the tile, its data and the index)"
-//@   ensures (result1 == nil) == HFTOK(t, data, index)
-//@   ensures result1 == nil ==> result0 == HFT(t, data, index)
+//@   allocates
+//@   requires index >= 0
+//@   ensures [C10] covers: (result1 == nil) == HFTOK(t, data, index)
+//@   ensures [C10] extracts: result1 == nil ==> result0 == HFT(t, data, index)
 //@   props C10
 //@ func tileHash
-//@   trusted "abstracted by THASH (a function of the data)"
-//@   ensures result == THASH(data)
+//@   requires TLEN(len(data))
+//@   decreases len(data)
+//@   ensures [C10] subtree_hash: result == THS(string(data))
+//@   hint exit string(result)
+//@   uses hash_bytes
 //@   props C10
 
+//@ # (assumed of every implementation: tile heights are positive; TileForIndex panics otherwise)
 //@ iface TileReader.Height(tr TileReader) int
+//@   ensures result >= 1
 //@ iface TileReader.ReadTiles(tr TileReader, tiles []Tile) (data [][]byte, err error)
 //@   allocates
 //@ # SaveTiles receives only authenticated tiles (the obligation is stated at the call site in ReadHashes);
@@ -318,6 +341,10 @@ package tlog
 
 //@ func (*tileHashReader).ReadHashes
 //@   requires r != nil
+//@   requires forall i int :: 0 <= i && i < len(indexes) ==> indexes[i] >= 0
+//@   # the index of a planned child's hash inside its parent tile is a storage index (the tile coordinate arithmetic that
+//@   # would show it, tileParent's shifts against the tree size, is abstracted)
+//@   call HashFromTile site 2 assumes "tile coordinate arithmetic abstracted: the entry of a planned full tile in its planned parent is a valid (non-negative) storage index" arg_index >= 0
 //@   mathints "bounds on tile levels and heights come from tile arithmetic that is abstracted here (tileParent, tileForIndex)"
 //@   let NS = len(tiles) @after loop 0
 //@   # every tile handed to SaveTiles was planned for the tree hash (authenticated by the recomputed root)
@@ -325,35 +352,44 @@ package tlog
 //@   call TileReader.SaveTiles requires [C10, C01] coverage: forall j int {tiles[j]} :: 0 <= j && j < len(tiles) ==> j < NS || CHECKED(r.tree.N, tiles, data, tileOrder, j)
 //@   call TileReader.SaveTiles requires [C10, C01] exact_size: len(data) == len(tiles) && (forall j int {tiles[j]} :: 0 <= j && j < len(tiles) ==> len(data[j]) == tiles[j].W * HashSize)
 //@   call TileReader.SaveTiles requires [C10, C01] requested_once: INJ(tiles, tileOrder)
+//@   uses tlen_pow2
 //@   loop 0:
+//@     invariant h >= 1
 //@     invariant 0 - 1 <= @idx && @idx < len(stx) && len(stxTileOrder) == len(stx) && len(stx) >= 1
 //@     invariant len(tiles) <= @idx + 1 && (@idx >= 0 ==> len(tiles) >= 1)
 //@     invariant forall i2 int :: 0 <= i2 && i2 <= @idx ==> 0 <= stxTileOrder[i2] && stxTileOrder[i2] < len(tiles)
 //@     invariant forall p Tile :: has(tileOrder, p) ==> 0 <= tileOrder[p] && tileOrder[p] < len(tiles)
 //@     invariant INJ(tiles, tileOrder)
 //@   loop 1:
+//@     invariant h >= 1 && (forall j int {tiles[j]} :: NS <= j && j < len(tiles) ==> tiles[j].H == h && tiles[j].W == pow2(h))
 //@     invariant 0 - 1 <= @idx && @idx < len(indexes)
 //@     invariant PLAN(stx, stxTileOrder, tiles, tileOrder, NS) && IPLAN(indexes, indexTileOrder, tiles)
 //@     invariant INJ(tiles, tileOrder)
 //@   loop 2:
+//@     invariant h >= 1 && (forall j int {tiles[j]} :: NS <= j && j < len(tiles) ==> tiles[j].H == h && tiles[j].W == pow2(h))
 //@     invariant 0 <= k && 0 <= i && i < len(indexes)
 //@     invariant PLAN(stx, stxTileOrder, tiles, tileOrder, NS) && IPLAN(indexes, indexTileOrder, tiles)
 //@     invariant INJ(tiles, tileOrder)
 //@     invariant forall k2 int :: 0 <= k2 && k2 < k ==> !has(tileOrder, tileParent(tile, k2, r.tree.N))
 //@   loop 3:
+//@     invariant h >= 1 && (forall j int {tiles[j]} :: NS <= j && j < len(tiles) ==> tiles[j].H == h && tiles[j].W == pow2(h))
 //@     invariant 0 - 1 <= k && 0 <= i && i < len(indexes)
 //@     invariant PLAN(stx, stxTileOrder, tiles, tileOrder, NS) && IPLAN(indexes, indexTileOrder, tiles)
 //@     invariant INJ(tiles, tileOrder)
 //@     invariant forall k2 int :: 0 <= k2 && k2 <= k ==> !has(tileOrder, tileParent(tile, k2, r.tree.N))
 //@     decreases k + 1
 //@   loop 4:
+//@     invariant h >= 1 && (forall j int {tiles[j]} :: NS <= j && j < len(tiles) ==> tiles[j].H == h && tiles[j].W == pow2(h))
 //@     invariant 0 - 1 <= @idx && @idx < len(tiles)
 //@     invariant forall j int {tiles[j]} :: 0 <= j && j <= @idx ==> len(data[j]) == tiles[j].W * HashSize
 //@     decreases len(tiles) - @idx
 //@   loop 5:
+//@     invariant h >= 1 && (forall j int {tiles[j]} :: NS <= j && j < len(tiles) ==> tiles[j].H == h && tiles[j].W == pow2(h))
 //@     invariant 0 - 1 <= i && i <= len(stx) - 2
 //@     decreases i + 1
 //@   loop 6:
+//@     invariant TLEN(32 * pow2(h)) && NS <= i
+//@     invariant h >= 1 && (forall j int {tiles[j]} :: NS <= j && j < len(tiles) ==> tiles[j].H == h && tiles[j].W == pow2(h))
 //@     invariant 0 <= i
 //@     invariant forall j int {tiles[j]} :: NS <= j && j < i ==> CHECKED(r.tree.N, tiles, data, tileOrder, j)
 //@     decreases len(tiles) - i
@@ -367,6 +403,7 @@ package tlog
 //@ # tileHashReader this is C10: coverage proved, tile arithmetic assumed)
 //@ iface HashReader.ReadHashes(r HashReader, indexes []int64) (hashes []Hash, err error)
 //@   allocates
+//@   requires forall i int :: 0 <= i && i < len(indexes) ==> indexes[i] >= 0
 //@   modifies "map[Tile]bool", ghost.WRITTEN
 //@   ensures err == nil ==> len(hashes) == len(indexes) && (forall i int :: 0 <= i && i < len(indexes) ==> hashes[i] == TRUEH(RTREE(r), indexes[i]))
 
@@ -403,6 +440,8 @@ package tlog
 
 //@ func leafProofIndex
 //@   requires lo <= n && n < hi && 0 <= lo
+//@   requires forall k int {need[k]} :: 0 <= k && k < len(need) ==> need[k] >= 0
+//@   ensures [C03, C10] indexes_nonneg: forall k int {result[k]} :: 0 <= k && k < len(result) ==> result[k] >= 0
 //@   decreases hi - lo
 //@   allocates
 //@   ensures len(result) == len(need) + LPI(lo, hi, n)
@@ -427,6 +466,8 @@ package tlog
 
 //@ func treeProofIndex
 //@   requires 0 <= lo && lo < n && n <= hi
+//@   requires forall k int {need[k]} :: 0 <= k && k < len(need) ==> need[k] >= 0
+//@   ensures [C03, C10] indexes_nonneg: forall k int {result[k]} :: 0 <= k && k < len(result) ==> result[k] >= 0
 //@   decreases hi - lo
 //@   allocates
 //@   ensures len(result) == len(need) + TPI(lo, hi, n)
@@ -650,6 +691,43 @@ package tlog
 //@   hint (n >> (i + 1)) * pow2(i)
 //@   trigger n >> i, TZ(n + 1)
 //@   props C09
+//@ # ... and they are coordinates for which StoredHashIndex is exact
+//@ # products as an opaque symbol: terms that triggers can match (the solver rewrites literal products)
+//@ spec opaque func MULT(a int, b int) int = a * b
+//@ lemma mult_lt_cancel(x int, y int, p int)
+//@   requires p >= 1 && MULT(x, p) < MULT(y, p)
+//@   ensures x < y
+//@   trigger MULT(x, p), MULT(y, p)
+//@   props C09
+//@ lemma sibling_bound(n int, i int)
+//@   requires n >= 0 && n + 1 < pow2(61) && 0 <= i && i < TZ(n + 1) && i <= 61
+//@   ensures (n >> i) + 1 < pow2(61 - i) + 1
+//@   uses sibling_coords pow2_add mult_lt_cancel
+//@   hint pow2(61 - i)
+//@   hint pow2(i)
+//@   hint MULT(pow2(61 - i), pow2(i))
+//@   hint MULT((n >> i) + 1, pow2(i))
+//@   trigger n >> i, TZ(n + 1)
+//@   props C09
+//@ lemma sibling_inrange(n int, i int)
+//@   requires n >= 0 && n + 1 < pow2(61) && 0 <= i && i < TZ(n + 1) && i <= 61
+//@   ensures INRANGE(i, (n >> i) - 1)
+//@   ensures SHI(i, (n >> i) - 1) >= 0
+//@   uses sibling_coords sibling_bound S0_nonneg
+//@   trigger n >> i, TZ(n + 1)
+//@   props C09
+//@ # the same, with a trigger made of plain applications only (ID marks the record number for matching)
+//@ spec opaque func ID(n int) int = n
+//@ spec opaque func IDX(i int) int = i
+//@ lemma sibling_inrange_at(n int, i int, n1 int)
+//@   requires n1 == n + 1 && n >= 0 && n1 < pow2(61) && 0 <= i && i < TZ(n1) && i <= 61
+//@   ensures INRANGE(i, (n >> i) - 1)
+//@   ensures SHI(i, (n >> i) - 1) >= 0
+//@   uses sibling_inrange
+//@   hint TZ(n + 1)
+//@   hint n >> i
+//@   trigger TZ(n1), IDX(i), ID(n)
+//@   props C09
 //@ func StoredHashesForRecordHash
 //@   requires 0 <= n && n + 1 < pow2(61) && r != nil
 //@   modifies "map[Tile]bool", ghost.WRITTEN, []Hash
@@ -658,11 +736,13 @@ package tlog
 //@   ensures [C09] one_hash_per_completed_subtree: result1 == nil ==> len(result0) == 1 + TZ(n + 1) && result0[0] == h
 //@   loop 0:
 //@     invariant 0 <= i && i <= m && m == TZ(n + 1) && len(indexes) == m && 0 <= m && m <= 61 && len(hashes) == 1 && hashes[0] == h
+//@     invariant (forall k int {indexes[k]} :: m - i <= k && k < m ==> indexes[k] >= 0) && IDX(i) == i
 //@     decreases m - i
 //@   loop 1:
 //@     invariant 0 <= i && i <= m && m == TZ(n + 1) && len(old) == m && len(hashes) == 1 + i && hashes[0] == old(h)
 //@     decreases m - i
-//@   uses TZ_nonneg TZ_upper TZ_bound
+//@   hint ID(n)
+//@   uses TZ_nonneg TZ_upper TZ_bound sibling_inrange_at
 //@   props C09
 
 //@ # ====================== record text (C09: records survive their text encoding) ======================
